@@ -17,6 +17,7 @@ GNext ==
      \/ \E e \in E : \E f \in FOf(e), s \in E :
            \/ SetRef(e, f, s) /\ Emit([op |-> "setref", e |-> e, f |-> f.py, src |-> s], "ok")
            \/ SetRefRefused(e, f, s) /\ Emit([op |-> "setref", e |-> e, f |-> f.py, src |-> s], "refused")
+     \/ \E e \in E : \E f \in FOf(e) : ClearRef(e, f) /\ Emit([op |-> "clearref", e |-> e, f |-> f.py], "ok")
      \/ \E s \in E, b \in Bufs : Copy(s, b) /\ Emit([op |-> "copy", src |-> s, b |-> b], "ok")
      \/ \E e \in E, b \in Bufs :
            \/ MoveDo(e, b) /\ Emit([op |-> "move", e |-> e, b |-> b], "ok")
